@@ -282,4 +282,6 @@ def main(tier, seed):
 
 
 def replay(path):
-    return main("quick", 0)
+    from vlib.common import replay_args
+
+    return main(*replay_args(path))
